@@ -11,6 +11,8 @@
 //          PTS p<id> ..., GT <id> <tolerance bits> <surface area bits> <scale bits> <statuses...>
 // program (prefix):  B x0 y0 z0 x1 y1 z1 | + e e | - e e | ^ e e | S0 e e | S1 e e
 //                    | P0 ax off e | P1 ax off e | T ax sgn off e | BA n e.. | BI n e.. | BS n e..
+//                    | RX k e | RY k e | RZ k e (Rotate by k*90 degrees) | MX e | MY e | MZ e (Mirror) | TR x y z e (Translate)
+//   applied to SUB-EXPRESSIONS; in lazy mode they stay unevaluated CSG nodes with their own transform
 #include <cmath>
 #include <cstdint>
 #include <cstdio>
@@ -88,6 +90,23 @@ struct Parser {
       vec3 n(0.0);
       n[ax] = sgn;
       return force(a.TrimByPlane(n, off));
+    }
+    if (t == "RX" || t == "RY" || t == "RZ") {   // rotation by k*90 degrees about an axis (exact: sind/cosd)
+      int k;
+      in >> k;
+      Manifold a = expr();
+      double d = 90.0 * k;
+      return force(t == "RX" ? a.Rotate(d, 0, 0) : t == "RY" ? a.Rotate(0, d, 0) : a.Rotate(0, 0, d));
+    }
+    if (t == "MX" || t == "MY" || t == "MZ") {
+      Manifold a = expr();
+      return force(a.Mirror(t == "MX" ? vec3(1, 0, 0) : t == "MY" ? vec3(0, 1, 0) : vec3(0, 0, 1)));
+    }
+    if (t == "TR") {
+      double x, y, z;
+      in >> x >> y >> z;
+      Manifold a = expr();
+      return force(a.Translate(vec3(x, y, z)));
     }
     if (t == "BA" || t == "BI" || t == "BS") {
       int n;
